@@ -30,7 +30,25 @@ def _isnan(I, args, kw):
     return VBool(False)
 
 
+def _np_asarray(I, args, kw):
+    """numpy.asarray(v, dtype=...) on an opaque vector value: the same abstract vector (the float32 cast is part of
+    the numeric layer that the contracts treat as uninterpreted)."""
+    I.ver.note_assumption("numpy.asarray(v, dtype) returns the same abstract vector value (numerics are uninterpreted)")
+    return I.force(args[0])
+
+
+def _timedelta(I, args, kw):
+    """datetime.timedelta(days=, seconds=): a duration in seconds on the real line.  Datetimes are modelled as
+    real numbers (UTC seconds); datetime - timedelta and datetime comparisons are then ordinary arithmetic."""
+    I.ver.note_assumption("datetimes are points on the real time line (UTC seconds); timedelta(days=n) == 86400*n")
+    days = kw.get("days", args[0] if args else VInt(0))
+    secs = kw.get("seconds", args[1] if len(args) > 1 else VInt(0))
+    return VReal(to_real(I.force(days)) * 86400 + to_real(I.force(secs)))
+
+
 TABLE = {
+    ("numpy", "asarray"): _np_asarray,
+    ("datetime", "timedelta"): _timedelta,
     ("math", "sqrt"): _sqrt,
     ("math", "isfinite"): _isfinite,
     ("math", "isnan"): _isnan,
